@@ -360,3 +360,51 @@ async def ping_timestamp_moves_only_on_a_reply():
 from contracts import c01_transfer
 harness(prop="C06", target="geckolib.driver.async_spastruct:GeckoAsyncStructure.get", name="block_request_spends_one_retry_per_attempt_and_terminates",
         uses=["env_any_segment_or_timeout"], loops=["get_retry_loop", "get_segment_loop"])(c01_transfer.async_transfer_all_or_nothing)
+
+
+# ------------------------------------------------- "each attempt freshly built", "finishes within retry-count x (timeout + pause)":
+# the request factories the engine is handed
+from geckolib.driver.protocol.reminders import GeckoRemindersProtocolHandler
+from geckolib.driver.protocol.watercare import GeckoWatercareProtocolHandler
+from geckolib.driver.protocol.version import GeckoVersionProtocolHandler as _Ver
+from geckolib.driver.protocol.getchannel import GeckoGetChannelProtocolHandler
+from geckolib.driver.protocol.configfile import GeckoConfigFileProtocolHandler
+from geckolib.driver.protocol.statusblock import GeckoStatusBlockProtocolHandler
+from geckolib.driver.protocol.packcommand import GeckoPackCommandProtocolHandler
+from contracts import c07_dispatch
+
+
+class LogClass:
+    begin = 256
+    end = 480
+
+
+@harness(prop="C06", target="geckolib.async_spa:GeckoAsyncSpa._get_status_block_handler_func", name="every_attempt_gets_a_fresh_request_with_the_configured_budget")
+def every_attempt_gets_a_fresh_request_with_the_configured_budget(later: float):
+    """the factories GeckoAsyncSpa hands to the engine: each call builds a NEW handler whose timeout clock starts now, with the
+    configured per-attempt timeout; the request kinds built elsewhere carry the same budget (the bound of the statement
+    is retry-count x (timeout + pause) with THOSE two numbers)"""
+    spa = make_spa(True, None)
+    spa.log_class = LogClass()
+    T = GeckoConfig.PROTOCOL_TIMEOUT_IN_SECONDS
+    N = GeckoConfig.PROTOCOL_RETRY_COUNT
+    parms = spa.sendparms
+    for make in (spa._get_version_handler_func, spa._get_channel_handler_func, spa._get_config_file_handler_func,
+                 spa._get_status_block_handler_func):
+        h1 = make()
+        d = advance_clock(0)
+        h2 = make()
+        ensures("a-new-request-object-per-attempt", h1 is not h2)
+        ensures("timeout-clock-of-the-new-attempt-starts-now", h2._start_time == clock_now())
+        ensures("configured-timeout-and-retry-budget", both(h2._timeout_in_seconds == T, h2._retry_count == N))
+    others = [GeckoRemindersProtocolHandler.request(1, parms=parms), GeckoWatercareProtocolHandler.request(1, parms=parms),
+              GeckoWatercareProtocolHandler.set(1, 2, parms=parms), GeckoPackCommandProtocolHandler.keypress(192, 6, 1, parms=parms),
+              GeckoPackCommandProtocolHandler.set_value(192, 6, 1, 1, 10, 1, 1, parms=parms),
+              GeckoStatusBlockProtocolHandler.full_request(1, parms=parms)]
+    for h in others:
+        ensures("configured-timeout-and-retry-budget", both(h._timeout_in_seconds == T, h._retry_count == N))
+
+
+# "returns a reply only if one was actually delivered FOR IT": a packet addressed to another client is not unwrapped (shared with C07)
+harness(prop="C06", target="geckolib.async_spa:GeckoAsyncSpa._async_on_packet",
+        name="a_packet_for_another_client_never_satisfies_a_request")(c07_dispatch.misaddressed_packet_has_no_effect)
